@@ -12,6 +12,7 @@ import (
 
 var monitors = map[string]func(*vk.Ctx){
 	"smoke": runSmoke,
+	"smoketx": runSmokeTx,
 	"C01":   runC01,
 	"C02":   runC02,
 	"C03":   runC03,
@@ -23,6 +24,7 @@ var monitors = map[string]func(*vk.Ctx){
 	"C10":   runC10,
 	"C11":   runC11,
 	"C18":   runC18,
+	"C19":   runC19,
 }
 
 func main() {
